@@ -41,8 +41,28 @@ pub(crate) fn collect_subscription_streams<'a, T: SubscriptionType + 'static>(
     streams: &mut Vec<BoxFieldStream<'a>>,
 ) -> ServerResult<()> {
     for selection in &ctx.item.node.items {
-        if let Selection::Field(field) = &selection.node {
-            streams.push(Box::pin({
+        match &selection.node {
+            Selection::FragmentSpread(fragment_spread) => {
+                if let Some(fragment) = ctx
+                    .query_env
+                    .fragments
+                    .get(&fragment_spread.node.fragment_name.node)
+                {
+                    collect_subscription_streams(
+                        &ctx.with_selection_set(&fragment.node.selection_set),
+                        root,
+                        streams,
+                    )?;
+                }
+            }
+            Selection::InlineFragment(inline_fragment) => {
+                collect_subscription_streams(
+                    &ctx.with_selection_set(&inline_fragment.node.selection_set),
+                    root,
+                    streams,
+                )?;
+            }
+            Selection::Field(field) => streams.push(Box::pin({
                 let ctx = ctx.clone();
                 asynk_strim::stream_fn(move |mut yielder| async move {
                     let ctx = ctx.with_field(field);
@@ -65,7 +85,7 @@ pub(crate) fn collect_subscription_streams<'a, T: SubscriptionType + 'static>(
                         yielder.yield_item(Response::from_errors(vec![err])).await;
                     }
                 })
-            }))
+            })),
         }
     }
     Ok(())
